@@ -111,12 +111,29 @@ CHECKS = {
         technique="deterministic simulation: message-level EP stepper refined against an executable conjugate-gamma "
                   "reference model after every delivery, seeded rescale-fault injection",
     ),
+    "C09": dict(
+        engine="hist",
+        level=dict(
+            category="exploration",
+            text="Seeded search over call histories (shared prior objects, repeated calls, clock jumps) with a "
+                 "simulated process pool whose arrival order, lazy iterator consumption and pickling are decided by the "
+                 "tape, compared call by call against a clean reference evaluation (bit identity; tolerance only where "
+                 "a shared prior has been converted between probability spaces), plus a restart sweep that recomputes "
+                 "the per-call digests in fresh interpreters under other PYTHONHASHSEED values.",
+            design_ref="DESIGN.md section 4 (C09), 3.4",
+        ),
+        note="Trusted: SimMP as a model of multiprocessing.Pool.imap_unordered (validated against the real pool in the "
+             "thorough tier, never used as an oracle); digests compared only between interpreters in the same JIT mode "
+             "on one machine.",
+        technique="deterministic simulation: call-history machine with an in-process simulated process pool (seeded "
+                  "arrival orders), virtual clock, reference-evaluation oracle, interpreter-restart sweep over hash seeds",
+    ),
 }
 
 PENDING = {
     p: "claimed in DESIGN.md section 4 (not a pure function: depends on schedules/faults/histories) but its check is "
        "not built yet at this commit; listed here only so that every property is accounted for"
-    for p in ("C09", "C33", "C34")
+    for p in ("C33", "C34")
 }
 
 
